@@ -21,7 +21,7 @@ from vlib.common import HARNESS, REPO
 
 WRAPPED = ("pthread_create pthread_mutex_lock pthread_mutex_unlock pthread_cond_wait pthread_cond_signal "
            "pthread_cond_broadcast pthread_kill pthread_cancel pthread_join pthread_sigmask sigwait raise time sleep poll read "
-           "close fcntl fputs fflush exit").split()
+           "close fcntl fputs fflush exit gethostbyname").split()
 REPO_SRCS = ["src/pdsh/cbuf.c", "src/pdsh/rcmd.c", "src/common/err.c", "src/common/list.c", "src/common/hostlist.c",
              "src/common/xstring.c", "src/common/xmalloc.c", "src/common/fd.c", "src/common/xpoll.c"]
 NWORKERS = 8
@@ -144,6 +144,8 @@ def _parse_line(line, res, steps, inline, cur):
         res["sites"] = [x for x in t[1:] if x]
     elif tag == "H":
         res["header"] = parse_kv(t[1:])
+    elif tag == "L":
+        res["limits"] = parse_kv(t[1:])
     elif tag == "T":
         res.setdefault("finals", {})[t[1]] = parse_kv(t[3:])
     elif tag == "BUG":
@@ -284,14 +286,27 @@ def project_fan(res, variant, relay=False):
     workers' reads and closes are events too)"""
     m = res["M"] or {}
     f, n = res["header"].get("fanout", m.get("fanout", "0")), res["header"].get("n", m.get("n", "0"))
+    lim = res.get("limits") or {}
+    opts = res["case"].get("opts") or {}
     if relay:
-        L = ["initr %s %s %s %d" % (variant, f, n, 1 if (res["case"].get("opts") or {}).get("sopt") else 0)]
+        L = ["initr %s %s %s %d" % (variant, f, n, 1 if opts.get("sopt") else 0)]
+    elif lim:
+        # the environment LTS (Dsh/FanX.lean): -k, the descriptor limits dsh() was called with
+        L = ["initx %s %s %s %d %s %s" % (variant, f, n, 1 if opts.get("k") else 0, lim["soft0"], lim["hard0"])]
     else:
         L = ["init %s %s %s" % (variant, f, n)]
+    if lim:
+        # `_increase_nofile_limit` as a function: fanout and soft limit it left behind
+        L.append("lim %s %s %s %s %s" % (f, lim["soft0"], lim["hard0"], lim["fanout_used"], lim["soft"]))
+    cfl = {}
+    for idx, t in ([] if relay else res["inline"]):
+        if len(t) >= 3 and t[1] == "createfail":
+            cfl.setdefault(idx, []).append("ev D createfail %s" % t[2].lstrip("W"))
     inl = {}
     for idx, t in (res["inline"] if relay else []):
         inl.setdefault(idx, []).append(t)
     for k, (s, ev) in enumerate(res["steps"]):
+        L += cfl.get(k, [])
         L += relay_lines(inl.get(k, []))            # what happened inline after step k-1
         fe = fan_event(ev)
         if fe is None:
@@ -301,8 +316,12 @@ def project_fan(res, variant, relay=False):
         L.append("ev " + " ".join(fe))
         if relay and ev[0].startswith("W") and ev[1] == "connectEnd" and int(ev[3]) < 0:
             L.append("cfail %s" % ev[0])
+    L += cfl.get(len(res["steps"]), [])
     L += relay_lines(inl.get(len(res["steps"]), []))
     status = m.get("status", "crash")
+    if status == "exit":
+        L.append("end exit %s" % m.get("code", "?"))
+        return L
     if status == "deadlock" and res.get("last_S"):
         s = res["last_S"]
         L.append("st %s %s %s %s" % (s["tc"], fan_filter(s["R"]), fan_filter(s["P"]), fan_filter(s["X"])))
@@ -440,6 +459,11 @@ def offenders(res):
     pw = parked_with_room(res)
     if pw is not None:
         out.append(("C04", "parked-with-room", "dispatcher parked in cond_wait with room for another target (step %d)" % pw))
+    if int(m.get("wrongaddr", 0) or 0) > 0:
+        out.append(("C03", "command-sent-to-another-targets-address",
+                    "%s connect(s) were handed an address that is not the target's own (the transport resolves hosts: "
+                    "every target is looked up, the resolver has one static result buffer), N=%d f=%d" %
+                    (m["wrongaddr"], n, f)))
     if status == "deadlock":
         out.append(("C03", "deadlock", "no runnable thread while dsh() has not returned (lost wake-up), N=%d f=%d" % (n, f)))
     elif status in ("budget", "spin"):
